@@ -32,6 +32,8 @@ class Screen:
         self.replies = []             # characters the terminal sends back (cursor position reports)
         self.written = []             # (row, col) of every cell written or erased since `mark()`
         self.eight_bit = False
+        self.ignored_sgr = []
+        self.malformed = []           # control sequences the terminal ignores because they are not well formed
         self.report = None            # scripted (row, column) to report instead of the cursor's (1-based, as sent)
 
     # -- helpers for the rules -----------------------------------------------------------
@@ -84,6 +86,17 @@ class Screen:
                 if m:
                     self._csi(m.group(1), m.group(2), m.group(3))
                     i = m.end()
+                    continue
+                if data[i:i + 2] == "\x1b[":
+                    # a control sequence that is not well formed (ECMA-48 / VT500 parser): parameter bytes, intermediate
+                    # bytes, final byte; anything else puts the parser into "ignore until the final byte"
+                    j = i + 2
+                    while j < len(data) and not ("\x40" <= data[j] <= "\x7e"):
+                        if data[j] < "\x20":
+                            break
+                        j += 1
+                    self.malformed.append(data[i:j + 1])
+                    i = j + 1
                     continue
                 if data[i:i + 2] == "\x1b7":
                     self.saved = (self.r, self.c, self.state)
@@ -144,10 +157,13 @@ class Screen:
                 raise AnalysisError("terminal model: unknown private mode %r%s" % (params, final))
             return
         if final == "m":
-            try:
-                self.state = sgr.apply_params(self.state, nums)
-            except sgr.Unsupported as e:
-                raise AnalysisError("terminal model: SGR code %s" % e)
+            for code in (nums or [0]):
+                if code in (38, 48, 58):
+                    raise AnalysisError("terminal model: extended colour SGR %d is not modelled" % code)
+                try:
+                    self.state = sgr.apply(self.state, code)
+                except sgr.Unsupported:
+                    self.ignored_sgr.append(code)      # a terminal ignores graphic renditions it does not implement
         elif final == "H":
             r = (nums[0] if len(nums) > 0 and nums[0] else 1) - 1
             c = (nums[1] if len(nums) > 1 and nums[1] else 1) - 1
